@@ -21,6 +21,30 @@ type flashSpec struct {
 	msgs      []fmsg // in With() order (duplicates allowed: the later call overrides)
 	noLevel   []bool // call With(k, v) without the level argument (level must then be 0)
 	withInput bool
+	// inputFirst: WithInput() is called before the With() calls (otherwise after them)
+	inputFirst bool
+	// request paths of the redirecting handler and of the redirect target ("" = /a, /b); nested
+	// paths matter for the path a client gives to a Set-Cookie without Path attribute
+	pathA, pathB string
+}
+
+var (
+	flashPathsA = []string{"/a", "/users/new", "/x/y/z", "/a/", "/users/new/", "/x/y/z/"}
+	flashPathsB = []string{"/b", "/users/list", "/x/y/w", "/b/", "/users/list/", "/x/y/w/"}
+)
+
+func (sp *flashSpec) a() string {
+	if sp.pathA == "" {
+		return "/a"
+	}
+	return sp.pathA
+}
+
+func (sp *flashSpec) b() string {
+	if sp.pathB == "" {
+		return "/b"
+	}
+	return sp.pathB
 }
 
 // bReport is what handler B observed.
@@ -44,6 +68,7 @@ type flashApp struct {
 	rep      *bReport
 	aInput   map[string]string // what handler A's own Bind saw (the data WithInput attaches)
 	lookKeys []string
+	pathB    string
 }
 
 func buildFlashApp(spec *flashSpec, lookKeys []string) *flashApp {
@@ -51,12 +76,17 @@ func buildFlashApp(spec *flashSpec, lookKeys []string) *flashApp {
 	app := fiber.New(fiber.Config{ReadBufferSize: 16384})
 	a := func(c fiber.Ctx) error {
 		r := c.Redirect()
-		for i, m := range spec.msgs {
-			if spec.noLevel[i] {
-				r.With(m.Key, m.Value)
-			} else {
-				r.With(m.Key, m.Value, m.Level)
+		withs := func() {
+			for i, m := range spec.msgs {
+				if spec.noLevel[i] {
+					r.With(m.Key, m.Value)
+				} else {
+					r.With(m.Key, m.Value, m.Level)
+				}
 			}
+		}
+		if !(spec.withInput && spec.inputFirst) {
+			withs()
 		}
 		if spec.withInput {
 			// observe the binder alone on the same request: this is the data that
@@ -70,13 +100,18 @@ func buildFlashApp(spec *flashSpec, lookKeys []string) *flashApp {
 			}
 			fa.aInput = in
 			r.WithInput()
+			if spec.inputFirst {
+				withs()
+			}
 		}
-		return r.To("/b")
+		return r.To(spec.b())
 	}
-	app.Get("/a", a)
-	app.Post("/a", a)
+	for _, p := range flashPathsA[:3] {
+		app.Get(p, a)
+		app.Post(p, a)
+	}
 	app.Get("/warm", func(c fiber.Ctx) error { return c.SendString("warm") })
-	app.Get("/b", func(c fiber.Ctx) error {
+	b := func(c fiber.Ctx) error {
 		rd := c.Redirect()
 		rep := &bReport{ran: true, byKey: map[string]fiber.FlashMessage{}, oldByKey: map[string]fiber.OldInputData{}}
 		msgs, olds := rd.Messages(), rd.OldInputs()
@@ -101,7 +136,11 @@ func buildFlashApp(spec *flashSpec, lookKeys []string) *flashApp {
 		}
 		*fa.rep = *rep
 		return c.SendString("b")
-	})
+	}
+	for _, p := range flashPathsB[:3] {
+		app.Get(p, b)
+	}
+	fa.pathB = spec.b()
 	fa.app = app
 	fa.w = drive.NewWire(app)
 	return fa
@@ -109,7 +148,7 @@ func buildFlashApp(spec *flashSpec, lookKeys []string) *flashApp {
 
 func (fa *flashApp) serveB(e *ev.Env, c *ev.Case, cookie []byte, hasCookie bool) (rs []*strict.Response, perr *strict.ParseError, out []byte, panicked bool) {
 	*fa.rep = bReport{}
-	req := []byte("GET /b HTTP/1.1\r\nHost: flash.example.com\r\n")
+	req := []byte("GET " + fa.pathB + " HTTP/1.1\r\nHost: flash.example.com\r\n")
 	if hasCookie {
 		req = append(req, "Cookie: "+fiber.FlashCookieName+"="...)
 		req = append(req, cookie...)
@@ -253,6 +292,39 @@ func flashLines(r *strict.Response) []string {
 // lenientFlash extracts the flash cookie the way a line-splitting, non-validating client does:
 // header lines end at LF, the value ends at the first ';'.
 func lenientFlash(out []byte) ([]byte, bool) {
+	v, _, ok := lenientFlashLine(out)
+	return v, ok
+}
+
+// cookiePathAttr returns the Path attribute in the attribute part of a Set-Cookie line ("" if none).
+func cookiePathAttr(attrs string) string {
+	for _, a := range strings.Split(attrs, ";") {
+		a = strings.TrimSpace(a)
+		if len(a) >= 5 && strings.EqualFold(a[:5], "path=") {
+			return a[5:]
+		}
+	}
+	return ""
+}
+
+// track records in the jar that the client holds the flash cookie, under the path the issuing
+// line gives it (attribute, else the default-path of the request): only the identity matters
+// here, the value the client presents is kept by the caller.
+func track(j *strict.Jar, attrs, reqPath string, now time.Time) {
+	line := fiber.FlashCookieName + "=x"
+	if p := cookiePathAttr(attrs); p != "" {
+		if j.StoreFrom(line+"; Path="+p, now, reqPath) == "" {
+			return
+		}
+	}
+	j.StoreFrom(line, now, reqPath)
+}
+
+func holdsFlash(j *strict.Jar, reqPath string) bool {
+	return strings.Contains(j.Header(reqPath), fiber.FlashCookieName+"=")
+}
+
+func lenientFlashLine(out []byte) (value []byte, attrs string, ok bool) {
 	end := bytes.Index(out, []byte("\r\n\r\n"))
 	if end < 0 {
 		end = len(out)
@@ -263,12 +335,12 @@ func lenientFlash(out []byte) ([]byte, bool) {
 		if len(l) >= len(p) && strings.EqualFold(string(l[:len(p)]), string(p)) {
 			v := l[len(p):]
 			if i := bytes.IndexByte(v, ';'); i >= 0 {
-				v = v[:i]
+				return v[:i], string(v[i+1:]), true
 			}
-			return v, true
+			return v, "", true
 		}
 	}
-	return nil, false
+	return nil, "", false
 }
 
 // rawFlashValue cuts the flash cookie value out of the raw response: from the cookie name to the
@@ -389,6 +461,15 @@ func runFlash(e *ev.Env) {
 	script("duplicate-key", &flashSpec{msgs: []fmsg{{Key: "k", Value: "first", Level: 'A'}, {Key: "k", Value: "second", Level: 'B'}}, noLevel: []bool{false, false}}, getA)
 	script("with-input-query", &flashSpec{withInput: true}, []byte("GET /a?name=John HTTP/1.1\r\nHost: flash.example.com\r\n\r\n"))
 	script("no-messages", &flashSpec{}, getA)
+	// the follow-up request is on a nested path: an expiry without Path attribute would address
+	// the cookie (fiber_flash, /users), not the issued (fiber_flash, /)
+	script("nested-target-path", &flashSpec{msgs: []fmsg{{Key: "status", Value: "saved", Level: 'A'}}, noLevel: []bool{false}, pathA: "/users/new", pathB: "/users/list"},
+		[]byte("GET /users/new HTTP/1.1\r\nHost: flash.example.com\r\n\r\n"))
+	// a message key that is also a submitted field, in both call orders
+	script("message-key-equals-field-input-first", &flashSpec{msgs: []fmsg{{Key: "email", Value: "is taken", Level: 'A'}}, noLevel: []bool{false}, withInput: true, inputFirst: true},
+		[]byte("GET /a?email=john%40example.com HTTP/1.1\r\nHost: flash.example.com\r\n\r\n"))
+	script("message-key-equals-field-with-first", &flashSpec{msgs: []fmsg{{Key: "email", Value: "is taken", Level: 'A'}}, noLevel: []bool{false}, withInput: true},
+		[]byte("GET /a?email=john%40example.com HTTP/1.1\r\nHost: flash.example.com\r\n\r\n"))
 
 	host := func(name, kind string, cookie []byte) {
 		e.Corpus(name, func(c *ev.Case) { hostileCookie(e, c, kind, cookie) })
@@ -419,10 +500,23 @@ func runFlash(e *ev.Env) {
 			spec.msgs = append(spec.msgs, m)
 			spec.noLevel = append(spec.noLevel, !wireSafe && r.Chance(1, 4))
 		}
-		reqA := getA
+		spec.pathA, spec.pathB = gen.Pick(r, flashPathsA), gen.Pick(r, flashPathsB)
+		reqA := []byte("GET " + spec.pathA + " HTTP/1.1\r\nHost: flash.example.com\r\n\r\n")
 		if !wireSafe && r.Chance(1, 2) {
 			spec.withInput = true
-			reqA = inputRequest(r)
+			spec.inputFirst = r.Bool()
+			// in a share of the scripts a submitted field has the name of a message key
+			var same []string
+			if len(spec.msgs) > 0 && r.Chance(1, 2) {
+				if k := spec.msgs[r.Intn(len(spec.msgs))].Key; plainName(k) {
+					same = append(same, k)
+				} else {
+					i := r.Intn(len(spec.msgs))
+					spec.msgs[i].Key = r.Ident(1, 8)
+					same = append(same, spec.msgs[i].Key)
+				}
+			}
+			reqA = inputRequest(r, spec.pathA, same)
 		}
 		flashScript(e, c, spec, reqA)
 	})
@@ -580,10 +674,27 @@ func appendField(b []byte, r *gen.Rand, f string) []byte {
 
 // inputRequest builds request A with old input in the query, a urlencoded form or a multipart
 // form; keys are plain names (binding of exotic keys is C11's business), values any bytes.
-func inputRequest(r *gen.Rand) []byte {
-	n := r.Range(0, 4)
+func plainName(k string) bool {
+	if k == "" || len(k) > 12 {
+		return false
+	}
+	for i := 0; i < len(k); i++ {
+		if k[i] < 'a' || k[i] > 'z' {
+			return false
+		}
+	}
+	return true
+}
+
+func inputRequest(r *gen.Rand, path string, must []string) []byte {
+	n := r.Range(0, 4) + len(must)
 	keys := map[string]bool{}
 	var ks, vs []string
+	for _, k := range must {
+		keys[k] = true
+		ks = append(ks, k)
+		vs = append(vs, anyString(r, r.Range(0, 20)))
+	}
 	for len(ks) < n {
 		k := r.Ident(1, 8)
 		if keys[k] {
@@ -603,14 +714,14 @@ func inputRequest(r *gen.Rand) []byte {
 		if len(p) > 0 {
 			q = "?" + strings.Join(p, "&")
 		}
-		return []byte("GET /a" + q + " HTTP/1.1\r\nHost: flash.example.com\r\n\r\n")
+		return []byte("GET " + path + q + " HTTP/1.1\r\nHost: flash.example.com\r\n\r\n")
 	case 1:
 		var p []string
 		for i := range ks {
 			p = append(p, ks[i]+"="+pctAll(vs[i]))
 		}
 		body := strings.Join(p, "&")
-		return []byte("POST /a HTTP/1.1\r\nHost: flash.example.com\r\nContent-Type: application/x-www-form-urlencoded\r\nContent-Length: " + itoa(len(body)) + "\r\n\r\n" + body)
+		return []byte("POST " + path + " HTTP/1.1\r\nHost: flash.example.com\r\nContent-Type: application/x-www-form-urlencoded\r\nContent-Length: " + itoa(len(body)) + "\r\n\r\n" + body)
 	default:
 		var b strings.Builder
 		for i := range ks {
@@ -618,7 +729,7 @@ func inputRequest(r *gen.Rand) []byte {
 			b.WriteString("--XbOuNdArY\r\nContent-Disposition: form-data; name=\"" + ks[i] + "\"\r\n\r\n" + v + "\r\n")
 		}
 		b.WriteString("--XbOuNdArY--\r\n")
-		return []byte("POST /a HTTP/1.1\r\nHost: flash.example.com\r\nContent-Type: multipart/form-data; boundary=XbOuNdArY\r\nContent-Length: " + itoa(b.Len()) + "\r\n\r\n" + b.String())
+		return []byte("POST " + path + " HTTP/1.1\r\nHost: flash.example.com\r\nContent-Type: multipart/form-data; boundary=XbOuNdArY\r\nContent-Length: " + itoa(b.Len()) + "\r\n\r\n" + b.String())
 	}
 }
 
@@ -739,10 +850,14 @@ func flashScript(e *ev.Env, c *ev.Case, spec *flashSpec, reqA []byte) {
 		} else {
 			e.Violation(c, "flash|response-malformed|"+perr.Class, "response of the redirecting handler is rejected by a strict client: "+perr.Error(), detail)
 		}
-		lenient, haveLenient = lenientFlash(out1)
+		var attrs string
+		lenient, attrs, haveLenient = lenientFlashLine(out1)
+		if haveLenient {
+			track(jar, attrs, spec.a(), time.Unix(0, 0))
+		}
 		client = "lenient"
-	case len(rs1) != 1 || rs1[0].Status != 302 || rs1[0].Get("Location") != "/b":
-		e.Violation(c, "flash|redirect-response", "handler A did not answer 302 to /b", detail)
+	case len(rs1) != 1 || rs1[0].Status != 302 || rs1[0].Get("Location") != spec.b():
+		e.Violation(c, "flash|redirect-response", "handler A did not answer 302 to "+spec.b(), detail)
 		return
 	default:
 		if name, after := injectedLine(rs1[0].Raw); name != "" {
@@ -755,7 +870,11 @@ func flashScript(e *ev.Env, c *ev.Case, spec *flashSpec, reqA []byte) {
 		case len(lines) != 1:
 			e.Violation(c, "flash|cookie-count", itoa(len(lines))+" flash cookies set for "+itoa(attached)+" attached items", detail)
 		default:
-			switch bad := jar.Store(lines[0], serverNow(rs1[0])); bad {
+			attrs := ""
+			if i := strings.IndexByte(lines[0], ';'); i >= 0 {
+				attrs = lines[0][i+1:]
+			}
+			switch bad := jar.StoreFrom(lines[0], serverNow(rs1[0]), spec.a()); bad {
 			case "":
 				strictOK = true
 				e.Stat("strict_client_stored_cookie", 1)
@@ -770,9 +889,13 @@ func flashScript(e *ev.Env, c *ev.Case, spec *flashSpec, reqA []byte) {
 					v = v[:i]
 				}
 				lenient, haveLenient = []byte(strings.Trim(v, " \t")), true
+				track(jar, attrs, spec.a(), serverNow(rs1[0]))
 			default:
 				k1(e, c, detail, "set-cookie-"+bad, "a user agent does not accept the Set-Cookie line: the messages are not presented")
 				lenient, haveLenient = lenientFlash(out1)
+				if haveLenient {
+					track(jar, attrs, spec.a(), serverNow(rs1[0]))
+				}
 				client = "lenient"
 			}
 		}
@@ -791,6 +914,11 @@ func flashScript(e *ev.Env, c *ev.Case, spec *flashSpec, reqA []byte) {
 	} else if haveLenient {
 		cookie, present = lenient, true
 		e.Stat("continuations_"+client, 1)
+	}
+	if present && !holdsFlash(jar, fa.pathB) {
+		// the cookie's path does not cover the redirect target: nothing is presented
+		present = false
+		e.Violation(c, "flash|cookie-path-does-not-cover-target", "the flash cookie is not presented to the redirect target "+fa.pathB, detail)
 	}
 	detail["client"] = client
 	detail["cookie_presented"] = show(cookie)
@@ -834,24 +962,17 @@ func flashScript(e *ev.Env, c *ev.Case, spec *flashSpec, reqA []byte) {
 			} else if attached > 0 {
 				e.Stat("delivered_intact_"+client, 1)
 			}
-			// the response must expire the cookie
+			// the response must expire the cookie the client holds: a Set-Cookie line replaces or
+			// deletes the stored cookie with the same name and path only (RFC 6265 §5.3), and a
+			// line without Path attribute gets the default-path of this request (§5.1.4)
 			now := serverNow(rs2[0])
-			expired := false
 			for _, l := range rs2[0].All("Set-Cookie") {
-				sc, bad := strict.ParseSetCookie(l)
-				if bad == "" && sc.Name == fiber.FlashCookieName && (sc.Path == "" || sc.Path == "/") && sc.Expired(now) {
-					expired = true
-				}
-				if strictOK {
-					jar.Store(l, now)
-				}
+				jar.StoreFrom(l, now, fa.pathB)
 			}
-			if !expired {
-				e.Violation(c, "flash|cookie-not-expired", "the response of the handler that consumed the messages does not expire the flash cookie", detail)
-			}
-			stillThere := !expired
-			if strictOK {
-				_, stillThere = jar.Get(fiber.FlashCookieName)
+			stillThere := holdsFlash(jar, fa.pathB)
+			if stillThere {
+				detail["set_cookie_b"] = rs2[0].All("Set-Cookie")
+				e.Violation(c, "flash|cookie-not-expired", "the response of the handler that consumed the messages does not expire the flash cookie the client holds (same name and path)", detail)
 			}
 			// ---- (3) the same client again -----------------------------------------
 			if stillThere {
